@@ -681,6 +681,7 @@ func (s *MemoryStore) Dequeue(req DequeueRequest) (DequeueResponse, error) {
 }
 
 func (s *MemoryStore) Ack(leaseID string) error {
+	leaseID = strings.TrimSpace(leaseID)
 	s.mu.Lock()
 	defer s.mu.Unlock()
 
@@ -774,6 +775,7 @@ func (s *MemoryStore) AckBatch(leaseIDs []string) (LeaseBatchResult, error) {
 }
 
 func (s *MemoryStore) Nack(leaseID string, delay time.Duration) error {
+	leaseID = strings.TrimSpace(leaseID)
 	s.mu.Lock()
 	defer s.mu.Unlock()
 
@@ -864,6 +866,7 @@ func (s *MemoryStore) Extend(leaseID string, extendBy time.Duration) error {
 	if extendBy <= 0 {
 		return nil
 	}
+	leaseID = strings.TrimSpace(leaseID)
 
 	s.mu.Lock()
 	defer s.mu.Unlock()
@@ -891,6 +894,7 @@ func (s *MemoryStore) Extend(leaseID string, extendBy time.Duration) error {
 }
 
 func (s *MemoryStore) MarkDead(leaseID string, reason string) error {
+	leaseID = strings.TrimSpace(leaseID)
 	s.mu.Lock()
 	defer s.mu.Unlock()
 
